@@ -363,7 +363,13 @@ func Glob(pat, s string) bool {
 // Has reports whether any fact key matches the glob pattern; alternatives
 // may be separated by " || ".
 func (s FactSet) Has(pat string) (string, bool) {
-	for _, alt := range strings.Split(pat, " || ") {
+	alts := strings.Split(pat, " || ")
+	for _, alt := range alts {
+		if sw := swapSym(strings.TrimSpace(alt)); sw != "" {
+			alts = append(alts, sw)
+		}
+	}
+	for _, alt := range alts {
 		alt = strings.TrimSpace(alt)
 		if f, ok := s[alt]; ok {
 			return f.Key(), true
@@ -377,4 +383,27 @@ func (s FactSet) Has(pat string) (string, bool) {
 		}
 	}
 	return "", false
+}
+
+// swapSym: for eq(a, b) / ne(a, b) patterns returns the pattern with the two
+// top-level operands exchanged (fact keys order them lexically).
+func swapSym(pat string) string {
+	if !(strings.HasPrefix(pat, "eq(") || strings.HasPrefix(pat, "ne(")) || !strings.HasSuffix(pat, ")") {
+		return ""
+	}
+	body := pat[3 : len(pat)-1]
+	depth := 0
+	for i := 0; i < len(body); i++ {
+		switch body[i] {
+		case '(', '[', '{':
+			depth++
+		case ')', ']', '}':
+			depth--
+		case ',':
+			if depth == 0 && i+1 < len(body) && body[i+1] == ' ' {
+				return pat[:3] + body[i+2:] + ", " + body[:i] + ")"
+			}
+		}
+	}
+	return ""
 }
